@@ -177,6 +177,7 @@ func (s *LookupPartitionStrategy) AddPartition(name string, partition *LookupPar
 	if ok {
 		return false
 	}
+	partition.UpdateLimit(s.limit)
 	s.partitions[name] = partition
 	return true
 }
